@@ -14,6 +14,7 @@ import Fdo.Drv.Rv
 import Fdo.Drv.Server
 import Fdo.Drv.Fsim
 import Fdo.Drv.Store
+import Fdo.Drv.Endpoint
 import Fdo.Drv.Rounds
 /-
 Line-protocol driver: one operation per input line, one reply per output line.
@@ -39,6 +40,7 @@ def handlers : List (String × (String → List String → Option String)) := [
   ("server.", Drv.Server.handle),
   ("fsim.", Drv.Fsim.handle),
   ("store.", Drv.Store.handle),
+  ("c10.", Drv.Endpoint.handle),
   ("rounds.", Drv.Rounds.handle),
 ]
 
